@@ -520,7 +520,10 @@ theorem C05_complete_directiveDef (T : TsDoc) (R : Rules T) (hrec : NoSpecRecurs
 /-- Completeness with the recursion rule in its relational form (`SpecReaches`) as a separate hypothesis. -/
 theorem C05_complete_rel (T : TsDoc) (h : TsSpecValid T) (hrec : NoSpecRecursion T) : checkSchema T = [] := by
   have R := rules_of_valid h
-  simp only [checkSchema, List.flatMap_eq_nil_iff]
+  rw [checkSchema_nil_iff]
+  -- `check_unique_names` (fix 8cdbacf): the two name rules of the specification leave nothing to report
+  refine ⟨checkUniqueNames_nil_of_spec R.uniqueTypeNames R.uniqueDirectiveNames, ?_⟩
+  simp only [checkSchemaItems, List.flatMap_eq_nil_iff]
   intro it hit
   cases it with
   | schemaDef sd => exact R.sites _ (site_schema (mem_schemaDefs.mpr hit))
@@ -531,7 +534,8 @@ theorem C05_complete_rel (T : TsDoc) (h : TsSpecValid T) (hrec : NoSpecRecursion
 
 /-- **C05, completeness.** A resolved type-system document that satisfies every rule of the executable
     specification `Spec/ValidTs.lean` (`tsSpecValid T = true` — exactly what the oracle stream evaluates)
-    gets no diagnostic from `check_type_system_document`. The executable recursion rule (a closure computed
+    gets no diagnostic from `check_type_system_document` — neither from `check_unique_names` (fix 8cdbacf: the
+    specification's `uniqueTypeNames` / `uniqueDirectiveNames` leave it nothing to report) nor from a definition. The executable recursion rule (a closure computed
     in `|T| + 1` rounds) is proved to imply the relational one (`noSpecRecursion_of_exec`). -/
 theorem C05_complete (T : TsDoc) (h : TsSpecValid T) : checkSchema T = [] :=
   C05_complete_rel T h (noSpecRecursion_of_exec (rules_of_valid h).noRecursiveDirectives)
